@@ -608,6 +608,10 @@ func checkC13(ctx *Ctx) *Result {
 	// allowed by it" also rests on the tree storing the pattern's host as
 	// parsed and Contains walking it byte for byte
 	treeRules(ctx, r)
+	// "rejected … naming that string": every origin pattern reaches the parser
+	// whatever else is wrong with the Config
+	r.rule("R4.1", "error discipline of the builder: every validator is consulted on every path and every violation found is part of the returned error (a defective pattern is named even next to other violations)", 1)
+	builderRule(ctx, r, "R4.1")
 	return r
 }
 
